@@ -61,6 +61,61 @@ fn run(ctx: &Ctx, hists: Vec<History>, full_from_last: usize, extra: &[String]) 
     NStats { histories: hists.len() as u64, steps }
 }
 
+/// (d) every BMP code unit.  For every judged unit c valid in a name: the name "q{c}z" is created,
+/// found again, listed, reopened and judged by the independent checker; if c is cased, every
+/// other member of its case class must collide with it (create_new_stream / create_storage
+/// refused, lookups succeed), and a caseless witness unit lying between c and its upper-case form
+/// is inserted next to it so that the listing order shows whether c was folded.
+pub fn bmp_sweep(ctx: &Ctx, version: u16, stride: usize) -> NStats {
+    use crate::names::{case_class, trusted_unit, upper_unit};
+    let name_of = |c: u16| -> Option<String> { char::from_u32(c as u32).map(|ch| format!("q{}z", ch)) };
+    let units: Vec<u16> = (1u16..=0xFFFF).filter(|&c| trusted_unit(c) && ![0x2F, 0x5C, 0x3A, 0x21].contains(&c)).collect();
+    if version == 3 {
+        ctx.set("bmp_units_judged", units.len() as u64);
+    }
+    let mut hists: Vec<History> = Vec::new();
+    let mut cased = 0u64;
+    for (i, &c) in units.iter().enumerate() {
+        let n = name_of(c).unwrap();
+        let class: Vec<u16> = case_class(c).into_iter().filter(|&d| d != c && trusted_unit(d)).collect();
+        if class.is_empty() {
+            // caseless: batches would hide nothing, but one file per unit is wasteful - sample by stride
+            // only in the quick tier (stride 1 = every unit)
+            if i % stride != 0 {
+                continue;
+            }
+            let ops_ = vec![Op::Rewrite(format!("/{}", n), 3)];
+            hists.push(History { version, seed: "fresh".into(), ops: ops_, reopen_after: vec![false] });
+            continue;
+        }
+        cased += 1;
+        let mut ops_ = vec![Op::Rewrite(format!("/{}", n), 3)];
+        for &d in &class {
+            let v = name_of(d).unwrap();
+            ops_.push(Op::CreateNewStream(format!("/{}", v)));
+            ops_.push(Op::CreateStorage(format!("/{}", v)));
+        }
+        // witness between c and its upper-case form
+        let u = upper_unit(c);
+        let (lo, hi) = (c.min(u), c.max(u));
+        let mid = lo + (hi - lo) / 2;
+        let witness = (0..=(hi - lo)).flat_map(|k| [mid.wrapping_add(k), mid.wrapping_sub(k)]).find(|&w| w > lo && w < hi && trusted_unit(w) && upper_unit(w) == w && case_class(w).len() == 1 && ![0x2F, 0x5C, 0x3A, 0x21].contains(&w));
+        if let Some(w) = witness {
+            ops_.push(Op::CreateStorage(format!("/{}", name_of(w).unwrap())));
+        }
+        // the other members address the same object
+        if let Some(&d) = class.first() {
+            ops_.push(Op::RemoveStream(format!("/{}", name_of(d).unwrap())));
+        }
+        let n_ops = ops_.len();
+        hists.push(History { version, seed: "fresh".into(), ops: ops_, reopen_after: vec![false; n_ops] });
+    }
+    if version == 3 {
+        ctx.set("bmp_cased_units_judged", cased);
+    }
+    run(ctx, hists, usize::MAX, &[])
+}
+
 /// (a) every name x every creation call, at the root and one level down.
 pub fn validity(ctx: &Ctx, version: u16) -> NStats {
     let mut hists = Vec::new();
